@@ -215,6 +215,9 @@ LookupSB(s, f, args, kw) ==
        IN [found |-> TRUE, valid |-> top /\ R.ok, fuzzy |-> top /\ R.fuzzy,
            kfHidden |-> top /\ R.ok /\ ~R2.ok, r |-> r]
 
+NestedClaimed(s, r) ==
+  \E x \in AllRecs(r.subs) : ~x.sf /\ IF x.k = "bf" THEN x.p \in s.claimedF ELSE SBKey(x) \in s.claimedS
+
 (* Applying a reused record: its keys are claimed, its successful outputs   *)
 (* (still in place on disk) become visible.                                  *)
 RECURSIVE ApplyOps(_, _, _, _)
@@ -335,7 +338,12 @@ CheckEnd(s, e) ==
     \* exception raised by the clean-up
     ELSE IF e.fault THEN IF e.err # "OSError" THEN "FaultSurfaces" ELSE ""
     ELSE
-      IF pd.serr = "" THEN "NoSpuriousException"
+      \* C08: a duplicate may also be "implied because a cached subtree containing it is being reused": where the
+      \* record found for this call contains a key that is already claimed, rejecting the call itself with
+      \* RuntimeError is as good as executing it and rejecting the nested call (the code does the former when the
+      \* key is claimed by another thread between its look at the record and its registration)
+      IF pd.serr = "" /\ e.err = "RuntimeError" /\ pd.lk.found /\ NestedClaimed(s, pd.lk.r) THEN ""
+      ELSE IF pd.serr = "" THEN "NoSpuriousException"
       ELSE IF e.err # pd.serr THEN "SetupErrClass"
       ELSE IF e.same THEN "H:same-flag"
       ELSE ""
